@@ -74,6 +74,10 @@ class Pipe(object):
             self._fire_cut()
             return n
         self._enqueue(data)
+        if self.cut_at is not None and len(self.data) >= self.cut_at:
+            # the cut offset is the end of what was just written (e.g. exactly between two replies):
+            # the connection ends right behind it, not only when the writer tries to write more
+            self._fire_cut()
         return n
 
     def _fire_cut(self):
@@ -226,6 +230,10 @@ class SimSocket(object):
     def getpeername(self):
         if self.peer is None:
             raise error(errno.ENOTCONN, 'not connected')
+        if self.rx is not None and self.rx.rst and self.rx.fin_t <= self.net.sched.now:
+            # the peer has reset the connection (possibly while it still sat in the listen backlog):
+            # accept() hands the socket out all the same, but it is no longer connected
+            raise error(errno.ENOTCONN, 'Transport endpoint is not connected')
         return self.peer
 
     def __enter__(self):
